@@ -4,6 +4,7 @@ program generation and rendering (W2 x W3), running the real parser and the
 reference model side by side, and the cascade guards of DESIGN 2.4 / 2.7.
 """
 
+import re
 import json
 import os
 
@@ -118,8 +119,10 @@ class Programs(object):
     """
 
     def __init__(self, ctx, n_generated, opts=None, layouts=LAYOUTS, use_corpus=True,
-                 valid_only=True, opts_fn=None):
+                 valid_only=True, opts_fn=None, long_every=100, long_pieces=30):
         self.ctx = ctx
+        self.long_every = long_every
+        self.long_pieces = long_pieces
         self.n = n_generated
         self.opts = opts
         self.opts_fn = opts_fn
@@ -140,6 +143,7 @@ class Programs(object):
         feats = jsgen.ALL_FEATURES
         # every shard walks the feature list from a different offset
         off = (ctx.shard * 7 + ctx.seed * 13) % len(feats)
+        recent = []
         for i in range(self.n):
             if ctx.out_of_time():
                 break
@@ -151,11 +155,42 @@ class Programs(object):
             text = render_variant(toks, layout, rng)
             yield text, {'origin': 'generated', 'toks': toks, 'features': fs, 'layout': layout,
                          'force': force}
+            # now and then a program on the scale of a real file: the last derivations as one statement list
+            # (bookkeeping that depends on the size of the input - line tables, offsets, counters - is not
+            # reached by programs of twenty tokens)
+            # (the random layouts may put a line terminator where a restricted production forbids one: such a
+            # piece would make the whole text a rejected one)
+            piece = text if layout in ('space', 'tight') else jsgen.render(toks, 'space', rng)
+            if self.long_every and _plain_piece(ctx, piece):
+                recent.append(piece)
+            del recent[:-self.long_pieces]
+            if self.long_every and i % self.long_every == self.long_every - 1 and len(recent) > 3 \
+                    and not ctx.out_of_time():
+                ctx.count('long_program')
+                yield '\n;\n'.join(recent), {'origin': 'generated_long', 'toks': None, 'features': (),
+                                             'layout': 'joined'}
 
     def report(self):
         all_f = set(jsgen.ALL_FEATURES)
         self.ctx.extra['generator_alternatives_total__max'] = len(all_f)
         self.ctx.extra['generator_alternatives_driven__set'] = sorted(self.features_seen & all_f)
+
+
+_ANNEXB = re.compile(r'\\[0-9]|(?<![\w.$])0[0-9]')
+
+
+def _plain_piece(ctx, piece):
+    """a piece of a long program must not make the whole text one that is skipped: no Annex B spellings (the
+    reference is not authoritative there), no trigger of an open finding of the property being checked"""
+    if _ANNEXB.search(piece):
+        return False
+    names = getattr(ctx, '_suppressed', None)
+    if names:
+        res, err = run_ref(piece)
+        if res is None or uncertain(res, err):
+            return False
+        return not any(known.trigger(n, piece, res) for n in names)
+    return True
 
 
 def skip_known(ctx, text, res, names=None):
